@@ -51,47 +51,8 @@ Inductive case :=
 Definition sp_of (path : N) : selpath := if path =? 0 then Pdep else Portable.
 Definition mode_of (dbg : bool) : mode := if dbg then Debug else Release.
 
-Definition model_build (sp : selpath) (m : mode) (route w n : N) (vals : list N) : res (sparse + N) :=
-  match route with
-  | 0 => sv_build_set sp m w n vals
-  | 1 => sv_build_multiset sp m w n vals
-  | 2 => let* s := sv_copy sp m w n vals in Ok (inl s)
-  | _ => sv_try_from_iter sp m w vals
-  end.
-
-(* ---- the one-pass evaluation of the builder (Check/SparseFast.v) *)
-
-(* from this many values on, the builder state is evaluated in one pass only (replaying try_set value by value
-   over list-based arrays would take minutes); below it, the model replays every call and the one-pass arrays are
-   compared with the arrays the replay produced *)
-Definition FAST_FROM : N := 20000.
-
-(* (increment, universe) when the route accepts the input, i.e. when the one-pass evaluation is defined *)
-Definition fast_params (route n : N) (vals : list N) : option (N * N) :=
-  match route with
-  | 0 | 2 => if fast_valid 1 n vals then Some (1, n) else None
-  | 1 => if fast_valid 0 n vals then Some (0, n) else None
-  | _ => let u := match last_lin vals with None => 0 | Some last => last + 1 end in
-         if fast_valid 0 u vals && (u <? 2 ^ 64) then Some (0, u) else None
-  end.
-
-Definition fast_agrees (sv : sparse) (fb : builder) : bool :=
-  (sv_len sv =? b_universe fb) && raw_eqb (bv_data (sv_high sv)) (b_high fb) && iv_eqb (sv_low sv) (b_low fb).
-
-(* the model's vector, and whether the one-pass arrays agree with the replayed ones (true when not compared) *)
-Definition model_build_checked (sp : selpath) (m : mode) (route w n : N) (vals : list N) : res (sparse + N) * bool :=
-  match fast_params route n vals with
-  | Some (inc, u) =>
-      if FAST_FROM <=? lenN vals then
-        ((let* b := fast_builder m w u inc vals in sv_try_from sp m b), true)
-      else
-        let r := model_build sp m route w n vals in
-        (r, match r, fast_builder m w u inc vals with
-            | Ok (inl sv), Ok fb => fast_agrees sv fb
-            | _, _ => true
-            end)
-  | None => (model_build sp m route w n vals, true)
-  end.
+(* [model_build] (the four construction routes) and [model_build_checked] (the same result through the one-pass
+   builder for long value lists, proved equal in Proofs/SparseFastProof.v) are defined in Check/SparseFast.v *)
 
 Section Q.
 Variable sp : selpath.
